@@ -766,3 +766,26 @@ Definition check_e2case (c : e2case) : bool * bool :=
        else negb (everdict_eqb (e2_verdict c) EPass)
    end,
    P_e2case c).
+
+(** * A case run as a MEMBER of a suite: the instruction (and the newer definitions) come from the suite
+    file, which is parsed once and shared by all cases; the older definitions come from the case.  The
+    judgement of the destination is the one of the case run alone.  Sandboxes of a suite run are not kept:
+    [ec_created] lists what is visible afterwards (so: created OUTSIDE every sandbox), [ec_home_changed] is
+    the snapshot of the home directory of the whole suite.  Generated members have no ".." and no absolute
+    strings, so nothing may be visible. *)
+Definition P_member (c : ecase) : bool :=
+  let m := spec_meaning (ec_here c) (ec_defs c) (c_default (ec_conf c)) (ec_arg c) in
+  negb (ec_home_changed c) &&
+  option_clause true (ec_conf c) (ec_arg c) (everdict_eqb (ec_verdict c) ESyntax) &&
+  (match ec_created c with [] => true | _ => false end) &&
+  (if illegal_in_arg (ec_here c) (ec_defs c) (ec_arg c) then rejected_before_execution (ec_verdict c) else true) &&
+  match m with
+  | Some mm => if creation_rel_ok (meaning_rel mm) then true else rejected_before_execution (ec_verdict c)
+  | None => true
+  end.
+
+Definition check_mcase (c : ecase) : bool * bool :=
+  (match model_erun c with
+   | (v, _, _, determined) => if determined then everdict_eqb v (ec_verdict c) else negb (everdict_eqb (ec_verdict c) EPass)
+   end,
+   P_member c).
